@@ -1034,6 +1034,8 @@ func main() {
 	mon.Floor("witness", len(witnesses))
 	cliFloors()
 	mon.Floor("concurrent:calls", 500)
+	mon.Floor("long:stockholm", 9)
+	mon.Floor("long:nexus", 9)
 	mon.Main("C02", []mon.Sub{
 		{Name: "witness", Quick: len(witnesses), Thorough: len(witnesses), Run: runWitness},
 		{Name: "keywords", Quick: kwCount(), Thorough: kwCount(), Run: runKeywords},
@@ -1043,6 +1045,7 @@ func main() {
 		{Name: "chain", Quick: 6000, Thorough: 150000, Run: runChain},
 		{Name: "files", Quick: 2600, Thorough: 52000, Run: runFiles},
 		// the same round trip through the command `goalign reformat` (cli.go): one process per case
+		{Name: "long", Quick: 13 * 9, Thorough: 13 * 9 * 4, Run: runLong},
 		{Name: "concurrent", Quick: 64, Thorough: 1200, Race: true, Run: func(c *mon.Case) { conc.Run(c, "formats") }},
 		{Name: "cli", Quick: 270, Thorough: 6300, Run: runCli},                // 6 (140 at the thorough tier) rounds over 5 sub commands x 9 input modes
 		{Name: "cli-refused", Quick: 108, Thorough: 1440, Run: runCliRefused}, // 36 kinds of refused input x 3 (all 4 at the thorough tier) sub commands
